@@ -789,13 +789,25 @@ _CMP_FLIP = {'Lt': 'Gt', 'Gt': 'Lt', 'LtE': 'GtE', 'GtE': 'LtE', 'Eq': 'Eq', 'No
 _CMP_NEG = {'Eq': 'NotEq', 'NotEq': 'Eq', 'Is': 'IsNot', 'IsNot': 'Is', 'In': 'NotIn', 'NotIn': 'In'}
 
 
+def _is_count(t):
+    """a length or an extent: an integer that cannot be negative"""
+    return isinstance(t, tuple) and t and ((t[0] == 'call' and t[1] == 'len') or (t[0] == 'proj' and isinstance(t[2], tuple) and t[2][:1] == ('attr',) and t[2][2] == 'shape')
+                                           or (t[0] == 'attr' and t[2] == 'size'))
+
+
 def mkcmp(op, a, b):
-    """comparison with its operands in canonical order (constants last): `0 < x` and `x > 0` are one term"""
+    """comparison with its operands in canonical order (constants last): `0 < x` and `x > 0` are one term; for a length,
+    `> 0`, `>= 1` are `!= 0` and `<= 0`, `< 1` are `== 0`"""
     if op in _CMP_FLIP:
         ka = (a[0] == 'const', ckey(a))
         kb = (b[0] == 'const', ckey(b))
         if kb < ka:
-            return ('cmp', _CMP_FLIP[op], b, a)
+            op, a, b = _CMP_FLIP[op], b, a
+    if _is_count(a) and b[0] == 'const' and not isinstance(b[1], bool):
+        if (op, b[1]) in (('Gt', 0), ('GtE', 1)):
+            return ('cmp', 'NotEq', a, ('const', 0))
+        if (op, b[1]) in (('LtE', 0), ('Lt', 1)):
+            return ('cmp', 'Eq', a, ('const', 0))
     return ('cmp', op, a, b)
 
 
@@ -977,6 +989,10 @@ def simplify(t):
     def rule(x):
         if x and x[0] == 'dget':
             return mkidx(x[1], x[2])
+        if x and x[0] == 'phi' and isinstance(x[1], tuple) and x[1] and x[1][0] in ('cmp', 'bool') and x[2] == ('const', True) and x[3] == ('const', False):
+            return x[1]                 # `flag = True if c else False` is `flag = c`
+        if x and x[0] == 'phi' and isinstance(x[1], tuple) and x[1] and x[1][0] in ('cmp', 'bool') and x[2] == ('const', False) and x[3] == ('const', True):
+            return mknot(x[1])
         if x and x[0] == 'idx' and isinstance(x[1], tuple) and x[1] and x[1][0] == 'upd' and x[1][2] == x[2]:
             return x[1][3]
         if x and x[0] == 'upd':
